@@ -246,6 +246,9 @@ func (ex *Exec) zeroValue(t types.Type) Value {
 		}
 		return av
 	case *types.Pointer:
+		if hc := ex.heapClassOf(u.Elem()); hc != nil {
+			return &HeapRefV{Ref: ts.BV(0, 64), Cls: hc}
+		}
 		return &PtrV{Nil: true}
 	case *types.Slice:
 		return &SliceV{Nil: true}
@@ -315,7 +318,17 @@ func (ex *Exec) symbolicValue(name string, t types.Type) Value {
 			av.Elems[i] = ex.symbolicValue(fmt.Sprintf("%s[%d]", name, i), u.Elem())
 		}
 		return av
+	case *types.Map:
+		ks, vs := ex.mapSorts(u)
+		v := ts.Var(name, ArraySort(ks, vs))
+		ex.inputs = append(ex.inputs, &InputVar{Name: name, Term: v, Type: t})
+		return &MapV{Val: v, T: u}
 	case *types.Pointer:
+		if hc := ex.heapClassOf(u.Elem()); hc != nil {
+			v := ts.Var(name, refSort)
+			ex.inputs = append(ex.inputs, &InputVar{Name: name, Term: v, Type: t})
+			return &HeapRefV{Ref: v, Cls: hc}
+		}
 		loc := ex.newLoc("*"+name, u.Elem())
 		ex.initStore[loc] = ex.symbolicValue("(*"+name+")", u.Elem())
 		return &PtrV{Loc: loc}
@@ -452,6 +465,11 @@ func (ex *Exec) iteValue(c *Term, a, b Value) Value {
 		y, ok := b.(*MapV)
 		if ok {
 			return ex.mergeMaps(c, x, y)
+		}
+	case *HeapRefV:
+		y, ok := b.(*HeapRefV)
+		if ok && x.Cls == y.Cls {
+			return &HeapRefV{Ref: ex.ts.Ite(c, x.Ref, y.Ref), Cls: x.Cls}
 		}
 	case *UFArrayV:
 		unsupported("merge of table values")
@@ -612,6 +630,13 @@ func (ex *Exec) eqValue(a, b Value) *Term {
 	case *MapV:
 		if y, ok := b.(*MapV); ok && y.Nil {
 			return ts.Bool(x.Nil)
+		}
+		if y, ok := b.(*MapV); ok && !x.Nil && !y.Nil {
+			return ts.Eq(x.Val, y.Val) // extensional (spec use only)
+		}
+	case *HeapRefV:
+		if y, ok := b.(*HeapRefV); ok {
+			return ts.Eq(x.Ref, y.Ref)
 		}
 	}
 	unsupported("== between %T and %T", a, b)
